@@ -205,6 +205,10 @@ func (s *Solver) readLine() (string, error) {
 // checkRaw sends (check-sat) and reads the answer.  A tactic of the form
 // "fallback:<tactic>" means: ask the incremental core first (5 s), and only if
 // that is undecided ask (check-sat-using <tactic>) with the full timeout.
+// Caveat (z3 4.8.12): a timed-out check can leave the context "canceled", so
+// that the next (push) fails with an error line - reported as a solver-error
+// fault, never as a pass; under heavy machine load this makes fallback mode
+// flaky.  Prefer the plain tactic form for registered suites.
 func (s *Solver) checkRaw() SatResult {
 	t0 := time.Now()
 	tactic, fallback := s.tactic, ""
